@@ -35,6 +35,13 @@ pub fn specs(quick: bool) -> Vec<Spec> {
         v.push(Spec::un(Kind::Alma, n, Spec::echo()));
         v.push(Spec::unp(Kind::AlmaCustom, n, vec![4.0, 0.5], Spec::echo()));
         v.push(Spec::unp(Kind::AlmaCustom, n, vec![2.0, 1.0], Spec::echo()));
+        if !quick && n <= 4 {
+            v.push(Spec::unp(Kind::AlmaCustom, n, vec![1.0, 0.0], Spec::echo()));
+            v.push(Spec::unp(Kind::AlmaCustom, n, vec![10.0, 0.25], Spec::echo()));
+            v.push(Spec::unp(Kind::EmaAlpha, n, vec![0.25], Spec::echo()));
+            // w = alpha/(N+1) = 1: the largest admissible weight
+            v.push(Spec::unp(Kind::EmaAlpha, n, vec![(n + 1) as f64], Spec::echo()));
+        }
     }
     v
 }
